@@ -11,6 +11,7 @@ CONSTANTS
   Lowers = {0}
   Usages = {0}
   EnvFiles = {}
+  TaskPats = {}
 INVARIANT CInv
 PROPERTY TPersistProtected NormalPassExact ThresholdPassSubset PolicyOrder
 CONSTRAINT HW
